@@ -533,6 +533,7 @@ class Interp:
         self.hook = hook
         self.facts = {}
         self.conds = []          # human-readable decisions taken on this path
+        self.decided = []        # the polynomials whose sign those decisions are about (same order as the sign decisions in conds)
         self.events = []         # ("noncongruent-wrap", where) ...
         self.depth = 0
         self.fn_stack = []
@@ -603,6 +604,7 @@ class Interp:
         if self.facts[key] == {0}:
             self.thin = True     # this path assumes an exact equality of symbolic values (a measure-zero set)
         self.conds.append("%s is %s" % (desc, ans))
+        self.decided.append(d)
         return ans
 
     def known_positive(self, d):
@@ -2167,8 +2169,13 @@ class Interp:
         if op is ast.Div:
             d = b.const_value()
             if d is None:
-                if a.is_zero() and (self.known_positive(b) or self.known_positive(-b)):
+                nonzero = self.known_positive(b) or self.known_positive(-b)
+                if a.is_zero() and nonzero:
                     return Poly()
+                if not nonzero:
+                    # a divisor that is not known to be non-zero on this path: recorded so that the obligation can look for an
+                    # input of the property's domain at which it vanishes (the result is then inf / nan)
+                    self.events.append(("division", b, self.where(node), {k: set(v) for k, v in self.facts.items()}))
                 return Quot(a, b)
             if d == 0:
                 raise self.unsupported("division by constant zero", node)
@@ -4478,6 +4485,7 @@ def explore(pkg, run, hook=None, max_paths=256):
                 res = PathResult(list(it.conds), value=val, events=it.events, wrap_uses=it.wrap_uses, thin=it.thin)
             except PathRaise as e:
                 res = PathResult(list(it.conds), raised=e, events=it.events, wrap_uses=it.wrap_uses, thin=it.thin)
+            res.decided = list(it.decided)
         finally:
             for g_ in it.live_generators:
                 g_.close()       # abandoned generators: let their threads unwind
@@ -4498,6 +4506,25 @@ POSE_LEN = {"PoseR2": 2, "PoseR3": 3, "PoseSE2": 3, "PoseSE3": 7}
 def pose_len(pkg, cls):
     """Ambient length of a pose class, derived from its own __new__ when possible (falls back to the table)."""
     return POSE_LEN[cls]
+
+
+def base_variables(p):
+    """Names of the input symbols polynomial p depends on, looking through sqrt / norm atoms and cos / sin of angles."""
+    out, todo, seen = set(), [p], set()
+    while todo:
+        q = todo.pop()
+        for v in q.variables():
+            if v in seen:
+                continue
+            seen.add(v)
+            i = poly.var_index(v)
+            if i in poly.R.atom_arg:
+                todo.append(poly.R.atom_arg[i][1])
+            elif v.startswith(("cos(", "sin(")) and v.endswith(")"):
+                out.add(v[4:-1])
+            else:
+                out.add(v)
+    return out
 
 
 def sym_pose(cls, name, unit=False):
